@@ -1286,6 +1286,24 @@ fin:
 	return res;
 }
 
+static bool
+pos_match_p(const bitint383_t *poss, size_t i, size_t n)
+{
+/* return true if the I-th out of N instances (counting from 1) of a
+ * period is selected by BYSETPOS, i.e. if I or I - N - 1 is in POSS */
+	int pos;
+
+	for (bitint_iter_t posi = 0UL;
+	     (pos = bi383_next(&posi, poss), posi);) {
+		if (pos > 0 && (size_t)pos == i) {
+			return true;
+		} else if (pos < 0 && (size_t)-pos + i == n + 1U) {
+			return true;
+		}
+	}
+	return false;
+}
+
 /* weekly and daily rules that match nothing must come to an end, there's
  * no point in looking beyond the last year our calendars can reckon with */
 #define WLY_DLY_MAX_YEAR	(2099U)
@@ -1478,6 +1496,8 @@ rrul_fill_dly(echs_instant_t *restrict tgt, size_t nti, rrulsp_t rr)
 	unsigned int w;
 	/* number of days in the current month */
 	unsigned int maxd;
+	/* whether we've got to pick instances of a day by BYSETPOS */
+	const bool posp = bi383_has_bits_p(&rr->pos);
 	struct enum_s e;
 
 	if (UNLIKELY((unsigned int)rr->count < nti)) {
@@ -1508,10 +1528,11 @@ rrul_fill_dly(echs_instant_t *restrict tgt, size_t nti, rrulsp_t rr)
 		/* because we're subtractive, allow all days in the wd_mask if
 		 * all of the actual mask days are 0 */
 		wd_mask |= 0b11111110U;
-	} else if (rr->inter == 1U && !bi31_has_bits_p(rr->dom)) {
+	} else if (rr->inter == 1U && !bi31_has_bits_p(rr->dom) && !posp) {
 		/* aaaah, what they want in fact is a weekly schedule
 		 * with the days in wd_mask, however that one knows
-		 * nothing about BYMONTHDAY */
+		 * nothing about BYMONTHDAY and BYSETPOS would pick
+		 * from the instances of a week there */
 		return rrul_fill_wly(tgt, nti, rr);
 	}
 
@@ -1606,6 +1627,13 @@ rrul_fill_dly(echs_instant_t *restrict tgt, size_t nti, rrulsp_t rr)
 				continue;
 			} else if (UNLIKELY(echs_instant_lt_p(rr->until, x))) {
 				goto fin;
+			} else if (UNLIKELY(posp) &&
+				   !pos_match_p(
+					   &rr->pos,
+					   (iH * e.nM + iM) * e.nS + iS + 1U,
+					   e.nH * e.nM * e.nS)) {
+				/* not one of the day's chosen instances */
+				continue;
 			}
 			/* attach scale and convert back to greg */
 			x = echs_instant_attach_scale(x, srcsca);
